@@ -25,6 +25,50 @@ func init() {
 	})
 }
 
+func c07NaNUpstream(k *fw.K, src, target []int, via string) {
+	x := Shuffled(k.Rng, Unique(k.Rng, src, 0.2, 2))
+	g := ref.Full(target, 2)
+	nanAt := k.Rng.Intn(len(g.Data)) // anywhere, not only at the end
+	g.Data[nanAt] = math.NaN()
+	k.Case = map[string]any{"op": via, "source": src, "target": target, "upstream": "all 2 except a NaN at flat position " + itoa(nanAt)}
+	k.Key("nan-upstream/%s/%s/%s", via, shapeKey(src), shapeKey(target))
+	k.Count("cases_with_a_NaN_in_an_otherwise_uniform_upstream_gradient", 1)
+	in := ref.Instr{Op: "broadcast", Shape: target}
+	want := ref.VJP(in, []*ref.T{x}, nil, g, ref.RuleSum)[0] // NaN pattern is the same under Sum and Avg
+	rx := rt.MustLeaf(x, true)
+	var err error
+	if p := call(func() {
+		var y tensor.Tensor
+		if via == "broadcast" {
+			y, err = rx.Broadcast(ref.CopyInts(target))
+		} else {
+			y, err = rt.MustLeaf(ref.Zeros(target), false).Add(rx)
+		}
+		if err == nil {
+			err = weightedBackprop(y, g)
+		}
+	}); p != nil || err != nil {
+		k.Failf("%s %v -> %v with a NaN in the upstream gradient: panic=%v err=%v", via, src, target, p, err)
+		return
+	}
+	gr := rx.Gradient()
+	if gr == nil {
+		k.Failf("%s %v -> %v: no gradient", via, src, target)
+		return
+	}
+	got, err := rt.Read(gr)
+	if err != nil || !ref.SameShape(got.Shape, src) {
+		k.Failf("%s %v -> %v: gradient unreadable or of shape %v (%v)", via, src, target, got, err)
+		return
+	}
+	for i := range got.Data {
+		if math.IsNaN(got.Data[i]) != math.IsNaN(want.Data[i]) {
+			k.Failf("%s %v -> %v, upstream gradient uniform except a NaN at flat position %d: operand element %d is %v, the sum over its copies is %v", via, src, target, nanAt, i, got.Data[i], want.Data[i])
+			return
+		}
+	}
+}
+
 // nonFinite puts +-Inf / NaN into some elements of an operand of an operation whose backward rule is value-independent.
 func nonFinite(k *fw.K, x *ref.T) {
 	for i := range x.Data {
@@ -143,6 +187,16 @@ func runC07(c *fw.Ctx) {
 						run(k, ref.Instr{Op: "matmul"}, []*ref.T{u(k, sa), u(k, sb)}, mask)
 					})
 				}
+			}
+		}
+	}
+	// ---- an upstream gradient that holds a NaN among otherwise EQUAL entries: the operand's gradient is NaN exactly where a copy
+	// with a NaN weight contributes (IEEE: a sum or a mean containing NaN is NaN), finite elsewhere ----
+	for _, src := range Shapes(0, 2, 3) {
+		for _, target := range BroadcastTargets(src, 1) {
+			for _, via := range []string{"broadcast", "add"} {
+				src, target, via := src, target, via
+				c.Case(func(k *fw.K) { c07NaNUpstream(k, src, target, via) })
 			}
 		}
 	}
